@@ -5,6 +5,8 @@
 package rruntime
 
 import (
+	"github.com/siderolabs/gen/optional"
+
 	"github.com/cosi-project/runtime/pkg/controller"
 	"github.com/cosi-project/runtime/pkg/controller/runtime/internal/reduced"
 	"github.com/cosi-project/runtime/pkg/controller/runtime/metrics"
@@ -14,9 +16,13 @@ import (
 type watchKey struct {
 	Namespace resource.Namespace
 	Type      resource.Type
+	ID        optional.Optional[resource.ID]
 }
 
-func (adapter *Adapter) addWatchFilter(resourceNamespace resource.Namespace, resourceType resource.Type, filter reduced.WatchFilter) {
+// addWatchFilter registers the filter of an input (nil for an input which is not filtered).
+//
+// Filters are kept per input, so that a filtered input does not hide events of another input on the same resource type.
+func (adapter *Adapter) addWatchFilter(resourceNamespace resource.Namespace, resourceType resource.Type, resourceID optional.Optional[resource.ID], filter reduced.WatchFilter) {
 	adapter.watchFilterMu.Lock()
 	defer adapter.watchFilterMu.Unlock()
 
@@ -24,14 +30,14 @@ func (adapter *Adapter) addWatchFilter(resourceNamespace resource.Namespace, res
 		adapter.watchFilters = make(map[watchKey]reduced.WatchFilter)
 	}
 
-	adapter.watchFilters[watchKey{resourceNamespace, resourceType}] = filter
+	adapter.watchFilters[watchKey{resourceNamespace, resourceType, resourceID}] = filter
 }
 
-func (adapter *Adapter) deleteWatchFilter(resourceNamespace resource.Namespace, resourceType resource.Type) {
+func (adapter *Adapter) deleteWatchFilter(resourceNamespace resource.Namespace, resourceType resource.Type, resourceID optional.Optional[resource.ID]) {
 	adapter.watchFilterMu.Lock()
 	defer adapter.watchFilterMu.Unlock()
 
-	delete(adapter.watchFilters, watchKey{resourceNamespace, resourceType})
+	delete(adapter.watchFilters, watchKey{resourceNamespace, resourceType, resourceID})
 }
 
 // WatchTrigger is called by common controller runtime when there is a change in the watched resources.
@@ -39,11 +45,24 @@ func (adapter *Adapter) WatchTrigger(md *reduced.Metadata) {
 	adapter.watchFilterMu.Lock()
 	defer adapter.watchFilterMu.Unlock()
 
-	if adapter.watchFilters != nil {
-		if filter := adapter.watchFilters[watchKey{md.Namespace, md.Typ}]; filter != nil && !filter(md) {
-			// skip reconcile if the event doesn't match the filter
-			return
+	// the event matches an input by type and/or an input by ID: skip reconcile only if every matching input filters it out
+	matched, passed := false, false
+
+	for _, key := range []watchKey{
+		{md.Namespace, md.Typ, optional.None[resource.ID]()},
+		{md.Namespace, md.Typ, optional.Some(md.ID)},
+	} {
+		if filter, ok := adapter.watchFilters[key]; ok {
+			matched = true
+
+			if filter == nil || filter(md) {
+				passed = true
+			}
 		}
+	}
+
+	if matched && !passed {
+		return
 	}
 
 	adapter.triggerReconcile()
